@@ -14,11 +14,15 @@ def run(res):
                  "hand-written sequential model Client/Queues.v of client/gribiclient.go, validated on every run against the real client",
                  "correspondence harness vh-c13: real client over in-memory gRPC (bufconn) against a scripted stub server; "
                  "quiescence detected by counting the client's own SendMsg/RecvMsg calls (stream interceptor) and Done()"],
-        extra_runs=[("c13race", 8 if res.tier == "quick" else 120)],
+        extra_runs=[("c13race", 8 if res.tier == "quick" else 120),
+                    ("c13ack", 20 if res.tier == "quick" else 300)],
         assumptions=["one event at a time in the model: the harness lets the client absorb each call / response before the next one; "
                      "one interleaving is exercised on the implementation in addition (vh-c13 c13race: callers spinning in AwaitConverged while one response "
-                     "both answers the last pending operation and records a receive error - none may return nil); other interleavings are C14's subject",
+                     "both answers the last pending operation and records a receive error - none may return nil; vh-c13 c13ack: an application looping Results() + AckResult(what it was shown) while the server "
+                     "streams one result per response - acknowledged results + final Results() must be exactly the results sent); other interleavings are C14's subject",
                      "TreatRIBACKAsCompletedInFIBACKMode = false (the default)",
                      "queued operation ids pairwise distinct (the theorems' hypothesis; duplicate ids are modelled and compared, not claimed)",
-                     "AckResult is not part of the scripts"],
+                     "AckResult is outside the Coq model (it only removes results: by operation id, exactly those it is given); its contract and its "
+                     "interleavings with the receiver are checked on the implementation by the oracle of vh-c13 c13ack, with ONE application goroutine "
+                     "(AckResult replaces the queue under the READ lock: concurrent AckResult / Results callers race - reported, not exercised)"],
         vh_bin="vh-c13", shrink_key="steps")
